@@ -213,7 +213,7 @@ _BUILTINS = {
     'AssertionError': AssertionError, 'ImportError': ImportError, 'StopIteration': StopIteration,
 }
 _SAFE_METHODS = {
-    dict: {'keys', 'values', 'items', 'get'},
+    dict: {'keys', 'values', 'items', 'get', 'pop', 'update', 'setdefault', 'copy'},
     str: {'lower', 'upper', 'find', 'index', 'count', 'startswith', 'endswith', 'join', 'split',
           'strip', 'rstrip', 'lstrip', 'format', 'encode', 'isdigit', 'rfind', 'replace'},
     bytes: {'find', 'index', 'count', 'lower', 'upper', 'startswith', 'endswith', 'decode', 'isdigit'},
